@@ -24,11 +24,15 @@ def Gate.inDaggerSet (g : Gate) : Prop :=
   (∃ z : Cyc8, g = Gate.scalar z ∧ z.isNormal = true) ∨
   ∃ z r : Cyc8, g = Gate.sqrt z r ∧ r.isNormal = true ∧ (sqrtSelfAdjoint z r = false ∨ r.conj = r)
 
-/-- Gates of the C16 statement: the translated table, normalised scalars, and Rz, Rx, CRz, CRx, CU1 at
-    every even integer phase index. -/
+/-- Gates of the C16 statement: the translated table, normalised scalars, Rz, Rx, CRz, CRx, CU1 at
+    every even integer phase index, and square-root scalars `sqrt(z)` (the subclass `gates.Sqrt` of
+    `gates.Scalar`; `Circuit.cups` / `caps` contain `sqrt(2)`) whose value `r` (`r² = z`) is invertible
+    in ℤ[ζ₈][1/2] or zero. -/
 def Gate.inZXSet (g : Gate) : Prop :=
   (∃ k, (g, k) ∈ zxTable) ∨ (∃ z : Cyc8, g = Gate.scalar z ∧ z.isNormal = true) ∨
-  ∃ k n, g = Gate.rot k n ∧ k ≠ .Ry ∧ n % 2 = 0
+  (∃ k n, g = Gate.rot k n ∧ k ≠ .Ry ∧ n % 2 = 0) ∨
+  (∃ z r r' : Cyc8, g = Gate.sqrt z r ∧ z.isNormal = true ∧ r.isNormal = true ∧ r'.isNormal = true ∧
+    r * r = z ∧ r * r' = 1) ∨ g = Gate.sqrt 0 0
 
 /-- The per-gate ZX hypothesis depends on the phase index modulo 16 only (`ζ⁸ = 1`). -/
 theorem zxOK_rot_mod16 (k : RotKind) (n : Int) (κ κ' : Cyc8) :
@@ -113,11 +117,13 @@ theorem circuit2zx_sound_cyc8 (n m : Nat) (c : Circ) (d : ZXDiag) (ht : Circ.cod
     ZXDiag.codFrom n d = some m ∧
     ∃ k : Cyc8, k ≠ 0 ∧ ZXDiag.eval n d = msmul k (evalCirc n c) := by
   obtain ⟨K, K', h0, _, hc, he⟩ := circuit2zx_sound_of ht (fun x hx => by
-    rcases hg x hx with ⟨k, hk⟩ | ⟨z, hz, hn⟩ | ⟨k, n', hr, hk, hn⟩
+    rcases hg x hx with ⟨k, hk⟩ | ⟨z, hz, hn⟩ | ⟨k, n', hr, hk, hn⟩ | ⟨z, r, r', hg', hz, hr, hr', h1, h2⟩ | hg'
     · exact ⟨k, zxInv k, zxTable_ok _ hk⟩
     · exact ⟨1, 1, hz ▸ scalar_zxOK z hn⟩
     · obtain ⟨κ, hκ⟩ := rot_zxOK_all k n' hk hn
-      exact ⟨κ, zxInv κ, hr ▸ hκ⟩) h
+      exact ⟨κ, zxInv κ, hr ▸ hκ⟩
+    · exact ⟨r, r', hg' ▸ sqrt_zxOK z r r' hz hr hr' h1 h2⟩
+    · exact ⟨1, 1, hg' ▸ sqrt_zero_zxOK⟩) h
   exact ⟨hc, K, h0, he⟩
 
 /-- On the gates other than CRz, CRx, CU1 the table as it is and the corrected table coincide. -/
